@@ -8,6 +8,7 @@ import (
 	"sync"
 
 	ipfslog "berty.tech/go-ipfs-log"
+	"berty.tech/go-ipfs-log/entry"
 	orbitdb "berty.tech/go-orbit-db"
 	"berty.tech/go-orbit-db/accesscontroller"
 	"berty.tech/go-orbit-db/iface"
@@ -71,6 +72,12 @@ func viewAny(s iface.Store) string {
 }
 
 func NewMultiDB(kinds []string, lists []string) (*MultiDB, error) {
+	return NewMultiDBNamed(kinds, lists, false)
+}
+
+// NewMultiDBNamed: with sameName every database gets the same name (they still differ by type or write
+// list, hence by manifest and address).
+func NewMultiDBNamed(kinds []string, lists []string, sameName bool) (*MultiDB, error) {
 	w := &MultiDB{net: sim.NewNet(), events: map[string]int{}}
 	var err error
 	if w.P, err = w.net.AddPeer("P").Start(nil); err != nil {
@@ -87,7 +94,11 @@ func NewMultiDB(kinds []string, lists []string) (*MultiDB, error) {
 		} else {
 			ac.SetAccess("write", []string{w.P.DB.Identity().ID, w.R.DB.Identity().ID})
 		}
-		sp, err := w.P.DB.Create(bg, fmt.Sprintf("db%d", i), k, &orbitdb.CreateDBOptions{AccessController: ac, Replicate: boolp(true)})
+		name := fmt.Sprintf("db%d", i)
+		if sameName {
+			name = "shared-name"
+		}
+		sp, err := w.P.DB.Create(bg, name, k, &orbitdb.CreateDBOptions{AccessController: ac, Replicate: boolp(true)})
 		if err != nil {
 			return nil, err
 		}
@@ -241,6 +252,11 @@ func (w *MultiDB) Enabled() []string {
 	for i := range w.dbs {
 		out = append(out, fmt.Sprintf("load:%d", i))
 	}
+	for i := range w.dbs {
+		if w.dbs[i].sr.OpLog().Len() > 0 {
+			out = append(out, fmt.Sprintf("exchange:%d", i))
+		}
+	}
 	return out
 }
 
@@ -281,6 +297,14 @@ func (w *MultiDB) Do(a string) error {
 		if err := writeAny(w.dbs[target].sr, fmt.Sprintf("r%d", w.n)); err != nil {
 			w.report(explore.Violation{Signature: "write-failed", Detail: err.Error()})
 		}
+	case "exchange": // the remote peer hands its heads of one database over the direct channel
+		target = int(arg[0] - '0')
+		var heads []*entry.Entry
+		for _, h := range w.dbs[target].sr.OpLog().Heads().Slice() {
+			heads = append(heads, h.(*entry.Entry))
+		}
+		payload, _ := json.Marshal(&iface.MessageExchangeHeads{Address: w.dbs[target].addr, Heads: heads})
+		w.net.PubSub.InjectDirect(w.R.Peer.ID, w.P.Peer.ID, payload)
 	case "load":
 		target = int(arg[0] - '0')
 		if err := w.dbs[target].sp.Load(bg, -1); err != nil {
@@ -401,6 +425,7 @@ func (w *MultiDB) Close() {
 }
 
 type C09Arg struct {
+	SameName bool
 	Gated  bool
 	Kinds  []string
 	Lists  []string
@@ -414,13 +439,16 @@ func (a C09Arg) Name() string {
 	if a.Gated {
 		g = "/gated-announcements"
 	}
+	if a.SameName {
+		g += "/same-name"
+	}
 	return fmt.Sprintf("multidb/%s/%s/d%d%s/shard%d.%d", strings.Join(a.Kinds, "+"), strings.Join(a.Lists, "+"), a.Depth, g, a.Shard, a.Shards)
 }
 
 func init() {
 	explore.Register(&explore.CheckDef{
 		ID: "C09", Level: "model_checking",
-		Rule: "one instance with its shared event bus holds 2-3 databases (type mixes, write lists {both peers, wildcard}); a remote instance holds replicas; explicit-state DFS over write(db), load(db), remote write(db) (announced on that database's topic) and delivery of any in-flight message, up to the depth bound. After every action: every database not named by the action keeps its entry set, heads, view, cached heads, replication status and emitted-event counts; every topic/direct message sent by the instance carries its own address and only heads of that log; every write/replicated event carries only entries of its own address. Non-trivial = states in which at least two databases hold entries.",
+		Rule: "one instance with its shared event bus holds 2-3 databases (type mixes, write lists {both peers, wildcard}); a remote instance holds replicas; explicit-state DFS over write(db), load(db), remote write(db) (announced on that database's topic), head exchange for db over the direct channel and delivery of any in-flight message, up to the depth bound; also with databases that share one name but differ in type or write list. After every action: every database not named by the action keeps its entry set, heads, view, cached heads, replication status and emitted-event counts; every topic/direct message sent by the instance carries its own address and only heads of that log; every write/replicated event carries only entries of its own address. Non-trivial = states in which at least two databases hold entries.",
 		Units: func(tier string) []explore.Unit {
 			cfgs := []C09Arg{
 				{Kinds: []string{"eventlog", "eventlog"}, Lists: []string{"both", "both"}, Depth: 4},
@@ -440,6 +468,8 @@ func init() {
 			if tier == "thorough" {
 				gd = 8
 			}
+			cfgs = append(cfgs, C09Arg{SameName: true, Kinds: []string{"eventlog", "keyvalue"}, Lists: []string{"both", "both"}, Depth: gd - 3})
+			cfgs = append(cfgs, C09Arg{SameName: true, Kinds: []string{"eventlog", "eventlog"}, Lists: []string{"both", "*"}, Depth: gd - 3})
 			cfgs = append(cfgs, C09Arg{Gated: true, Kinds: []string{"eventlog", "eventlog"}, Lists: []string{"both", "both"}, Depth: gd})
 			cfgs = append(cfgs, C09Arg{Gated: true, Kinds: []string{"keyvalue", "eventlog"}, Lists: []string{"both", "*"}, Depth: gd})
 			var u []explore.Unit
@@ -466,9 +496,9 @@ func init() {
 				return
 			}
 			d := &explore.DFS{
-				Scenario: a.Name(), Space: fmt.Sprintf("multidb/%s/%s/gated=%v", strings.Join(a.Kinds, "+"), strings.Join(a.Lists, "+"), a.Gated),
+				Scenario: a.Name(), Space: fmt.Sprintf("multidb/%s/%s/gated=%v/same=%v", strings.Join(a.Kinds, "+"), strings.Join(a.Lists, "+"), a.Gated, a.SameName),
 				New: func() (explore.World, error) {
-					w, err := NewMultiDB(a.Kinds, a.Lists)
+					w, err := NewMultiDBNamed(a.Kinds, a.Lists, a.SameName)
 					if err == nil && a.Gated {
 						w.gated = true
 						w.net.Gates.Enable(func(kind, peer, key, caller string) bool {
